@@ -6,6 +6,7 @@ import (
 	"strings"
 
 	"github.com/opsidian/parsley/ast"
+	"github.com/opsidian/parsley/ast/interpreter"
 	"github.com/opsidian/parsley/combinator"
 	"github.com/opsidian/parsley/data"
 	"github.com/opsidian/parsley/parser"
@@ -41,6 +42,7 @@ type buildOpts struct {
 	Memo             bool // honour Memo flags
 	RefMemo          bool // use the harness's reference memo table instead of combinator.Memoize
 	Interp           bool // bind the harness interpreter to every sequence
+	LibInterp        bool // bind the library's Array interpreter to SepBy / SepBy1, an evaluate-all interpreter elsewhere
 	CloneBeforeRTrim bool // causal-test shim for the open RightTrim finding
 	Order            []int
 	Between          func(i int) // called before constructing node Order[i] (index churn)
@@ -79,9 +81,9 @@ func (g *Grammar) valid() error {
 		}
 		need := -1
 		switch n.Op {
-		case "rune", "urune", "unode", "op", "empty", "int", "float", "str", "char", "bool", "nil", "word", "regexp", "dur", "end":
+		case "rune", "urune", "unode", "unode2", "op", "empty", "int", "float", "str", "char", "bool", "nil", "word", "regexp", "dur", "end":
 			need = 0
-		case "opt", "many", "many1", "ltrim", "rtrim", "single", "suppress", "ref", "sentence", "memo":
+		case "opt", "many", "many1", "ltrim", "rtrim", "single", "suppress", "ref", "sentence", "memo", "fwrap":
 			need = 1
 		case "sepby", "sepby1":
 			need = 2
@@ -95,7 +97,7 @@ func (g *Grammar) valid() error {
 		if need >= 0 && len(n.Kids) != need {
 			return fmt.Errorf("node %d: %s needs %d kids", i, n.Op, need)
 		}
-		if (n.Op == "rune" || n.Op == "urune" || n.Op == "unode" || n.Op == "op" || n.Op == "word") && n.Arg == "" {
+		if (n.Op == "rune" || n.Op == "urune" || n.Op == "unode" || n.Op == "unode2" || n.Op == "op" || n.Op == "word") && n.Arg == "" {
 			return fmt.Errorf("node %d: empty literal", i)
 		}
 	}
@@ -131,17 +133,37 @@ var concatInterp = ast.InterpreterFunc(func(userCtx interface{}, node parsley.No
 	return sb.String(), nil
 })
 
+// evalAllInterp evaluates every child and returns the values.
+var evalAllInterp = ast.InterpreterFunc(func(userCtx interface{}, node parsley.NonTerminalNode) (interface{}, parsley.Error) {
+	var vals []interface{}
+	for _, c := range node.Children() {
+		v, err := parsley.EvaluateNode(userCtx, c)
+		if err != nil {
+			return nil, err
+		}
+		vals = append(vals, v)
+	}
+	return vals, nil
+})
+
 // userNode is a node type defined by the user of the library (not one of ast / terminal):
 // a literal leaf with an in-place SetReaderPos, like the library's own leaves.
 type userNode struct {
 	tok       string
 	val       interface{}
 	pos, rpos parsley.Pos
+	end       parsley.Pos
+	endOnly   bool // reports its END from Pos() too (like parser.EndNode does): the Node interface does not forbid it
 }
 
-func (u *userNode) Token() string          { return u.tok }
-func (u *userNode) Schema() interface{}    { return nil }
-func (u *userNode) Pos() parsley.Pos       { return u.pos }
+func (u *userNode) Token() string       { return u.tok }
+func (u *userNode) Schema() interface{} { return nil }
+func (u *userNode) Pos() parsley.Pos {
+	if u.endOnly {
+		return u.end
+	}
+	return u.pos
+}
 func (u *userNode) ReaderPos() parsley.Pos { return u.rpos }
 func (u *userNode) Value() interface{}     { return u.val }
 func (u *userNode) SetReaderPos(f func(parsley.Pos) parsley.Pos) {
@@ -149,12 +171,12 @@ func (u *userNode) SetReaderPos(f func(parsley.Pos) parsley.Pos) {
 }
 
 // userRune is a user-supplied leaf parser producing userNode values.
-func userRune(ch rune) parsley.Parser {
+func userRune(ch rune, endOnly bool) parsley.Parser {
 	nf := parsley.NotFoundError("user " + string(ch))
 	return parser.Func(func(ctx *parsley.Context, lrc data.IntMap, pos parsley.Pos) (parsley.Node, data.IntSet, parsley.Error) {
 		tr := ctx.Reader().(*text.Reader)
 		if rp, ok := tr.ReadRune(pos, ch); ok {
-			return &userNode{tok: "U" + string(ch), val: string(ch), pos: pos, rpos: rp}, data.EmptyIntSet, nil
+			return &userNode{tok: "U" + string(ch), val: string(ch), pos: pos, rpos: rp, end: rp, endOnly: endOnly}, data.EmptyIntSet, nil
 		}
 		return nil, data.EmptyIntSet, parsley.NewError(pos, nf)
 	})
@@ -209,7 +231,15 @@ func build(g *Grammar, o *buildOpts) *built {
 		case "rune":
 			p = terminal.Rune([]rune(nd.Arg)[0])
 		case "unode":
-			p = userRune([]rune(nd.Arg)[0])
+			p = userRune([]rune(nd.Arg)[0], false)
+		case "unode2":
+			p = userRune([]rune(nd.Arg)[0], true)
+		case "fwrap":
+			// parser.FuncWrapper around the kid (pointer: works with value and pointer receivers)
+			k := kid(nd, 0)
+			p = &parser.FuncWrapper{F: func(ctx *parsley.Context, lrc data.IntMap, pos parsley.Pos) (parsley.Node, data.IntSet, parsley.Error) {
+				return k.Parse(ctx, lrc, pos)
+			}}
 		case "urune":
 			// a user-supplied leaf parser: the other place (besides interpreters) where a
 			// caller can be aborted by a panic in user code while a parse is in flight
@@ -289,6 +319,12 @@ func build(g *Grammar, o *buildOpts) *built {
 			}
 			if o.Interp && nd.Op != "sentence" {
 				seq = seq.Bind(concatInterp)
+			} else if o.LibInterp && nd.Op != "sentence" {
+				if nd.Op == "sepby" || nd.Op == "sepby1" {
+					seq = seq.Bind(interpreter.Array())
+				} else {
+					seq = seq.Bind(evalAllInterp)
+				}
 			}
 			if nd.Name != "" && !strings.HasPrefix(nd.Name, "!") {
 				seq = seq.Name(nd.Name)
@@ -358,7 +394,7 @@ func (m *refMemo) Parse(ctx *parsley.Context, lrc data.IntMap, pos parsley.Pos) 
 
 func isLeafOp(op string) bool {
 	switch op {
-	case "rune", "urune", "unode", "op", "empty", "int", "float", "str", "char", "bool", "nil", "word", "regexp", "dur", "end":
+	case "rune", "urune", "unode", "unode2", "op", "empty", "int", "float", "str", "char", "bool", "nil", "word", "regexp", "dur", "end":
 		return true
 	}
 	return false
@@ -394,7 +430,7 @@ func (g *Grammar) analyze() *analysis {
 				if nd.Op == "sentence" {
 					v = k(0)
 				}
-			case "seqtry", "seqfoa", "many1", "sepby1", "ltrim", "rtrim", "single", "suppress", "ref", "memo":
+			case "seqtry", "seqfoa", "many1", "sepby1", "ltrim", "rtrim", "single", "suppress", "ref", "memo", "fwrap":
 				v = k(0)
 			case "any", "choice":
 				for j := range nd.Kids {
@@ -541,6 +577,9 @@ func (x *gen) leaf() int {
 			n.Op = "urune"
 		} else if r.Chance(1, 8) {
 			n.Op = "unode" // a user-defined node type flows through the combinators
+			if r.Chance(1, 3) {
+				n.Op = "unode2"
+			}
 		}
 		n.Arg = string(r.Pick(x.o.Alphabet))
 	}
@@ -576,7 +615,7 @@ func (x *gen) node(depth int) int {
 		n.Op = "ref"
 		n.Kids = []int{x.stack[r.Intn(len(x.stack)-1)]}
 	} else {
-		ops := []string{"seq", "seq", "seq", "any", "any", "choice", "opt", "many", "many1", "sepby", "sepby1", "seqtry", "seqfoa", "single", "suppress"}
+		ops := []string{"seq", "seq", "seq", "any", "any", "choice", "opt", "many", "many1", "sepby", "sepby1", "seqtry", "seqfoa", "single", "suppress", "fwrap"}
 		if x.o.Trims {
 			ops = append(ops, "ltrim", "rtrim", "rtrim")
 		}
@@ -675,7 +714,7 @@ func (g *Grammar) sample(r *Rand, i, depth int, sb *strings.Builder) {
 		}
 	}
 	switch nd.Op {
-	case "rune", "urune", "unode", "op", "word":
+	case "rune", "urune", "unode", "unode2", "op", "word":
 		sb.WriteString(nd.Arg)
 	case "int":
 		sb.WriteString([]string{"1", "42", "-7", "0x1f", "012"}[r.Intn(5)])
@@ -738,7 +777,7 @@ func (g *Grammar) sample(r *Rand, i, depth int, sb *strings.Builder) {
 	case "rtrim":
 		g.sample(r, nd.Kids[0], depth+1, sb)
 		ws(nd.Arg)
-	case "single", "suppress", "memo":
+	case "single", "suppress", "memo", "fwrap":
 		g.sample(r, nd.Kids[0], depth+1, sb)
 	case "ref":
 		if depth < 7 {
